@@ -1,11 +1,13 @@
 From TV Require Import Base.Prelude Generated.Constants Storage.UpdaterLife.
 Local Open Scope N_scope.
 
-(* with all three mechanisms: only the current writer's updater is alive, its view IS meta.json, every view is <= meta *)
+(* with all four mechanisms: only the current writer's updater is alive, its view IS meta.json, every view is <= meta, and
+   a save in flight belongs to a live updater *)
 Record UInv (s : ust) : Prop := {
   ui_views : forall u x, ufind u (us_updaters s) = Some x -> u_id x = u /\ u_view x <= us_meta s;
   ui_alive : forall u x, ufind u (us_updaters s) = Some x -> u_alive x = true -> us_writer s = Some u /\ u_view x = us_meta s;
-  ui_writer : forall w, us_writer s = Some w -> exists x, ufind w (us_updaters s) = Some x /\ u_alive x = true
+  ui_writer : forall w, us_writer s = Some w -> exists x, ufind w (us_updaters s) = Some x /\ u_alive x = true;
+  ui_inflight : forall u, umem u (us_inflight s) = true -> exists x, ufind u (us_updaters s) = Some x /\ u_alive x = true
 }.
 
 Lemma uinv0 : UInv ust0.
@@ -14,14 +16,21 @@ Proof. split; cbn; intros; discriminate. Qed.
 Lemma ufind_cons x l u : ufind u (x :: l) = if N.eqb (u_id x) u then Some x else ufind u l.
 Proof. reflexivity. Qed.
 
-Lemma ustep_inv s e : UInv s -> UInv (ustep_gen true true true s e) /\ us_meta s <= us_meta (ustep_gen true true true s e).
+Lemma umem_udrop v u l : umem v (udrop u l) = true -> umem v l = true /\ v <> u.
 Proof.
-  intros [Hv Ha Hw]. assert (Hs : UInv s) by (split; assumption).
-  destruct e as [u|u|u|u r]; cbn [ustep_gen].
+  unfold umem, udrop. rewrite !existsb_exists. intros (y & Hy & E). apply filter_In in Hy. destruct Hy as [Hin Hne].
+  apply N.eqb_eq in E. subst y. split; [exists v; split; [exact Hin|apply N.eqb_refl]|].
+  apply negb_true_iff, N.eqb_neq in Hne. congruence.
+Qed.
+
+Lemma ustep_inv s e : UInv s -> UInv (ustep_gen true true true true s e) /\ us_meta s <= us_meta (ustep_gen true true true true s e).
+Proof.
+  intros [Hv Ha Hw Hi]. assert (Hs : UInv s) by (split; assumption).
+  destruct e as [u|u|u|u r|u|u]; cbn [ustep_gen].
   - (* UNew *)
     destruct (us_writer s) as [w|] eqn:Ew; [split; [exact Hs|lia]|].
     destruct (ufind u (us_updaters s)) eqn:Ef; [split; [exact Hs|lia]|].
-    split; [|cbn [us_meta]; lia]. split; cbn [us_meta us_updaters us_writer].
+    split; [|cbn [us_meta]; lia]. split; cbn [us_meta us_updaters us_writer us_inflight].
     + intros v x. rewrite ufind_cons. cbn [u_id]. destruct (N.eqb_spec u v).
       * intros E. injection E as <-. cbn [u_id u_view]. split; [assumption|lia].
       * apply Hv.
@@ -29,13 +38,15 @@ Proof.
       * intros E _. injection E as <-. cbn [u_view]. subst. split; reflexivity.
       * intros E Hal. destruct (Ha v x E Hal) as [A _]. congruence.
     + intros w E. injection E as <-. exists {| u_id := u; u_alive := true; u_view := us_meta s |}. rewrite ufind_cons. cbn [u_id]. rewrite N.eqb_refl. split; reflexivity.
+    + intros v Hm. destruct (Hi v Hm) as (x & Ex & Hal). destruct (Ha v x Ex Hal) as [A _]. congruence.
   - (* UCommit *)
     destruct (us_writer s) as [w|] eqn:Ew; [|split; [exact Hs|lia]].
     destruct (ufind u (us_updaters s)) as [x|] eqn:Ef; [|split; [exact Hs|lia]].
-    destruct (N.eqb_spec w u) as [->|Hne]; [|split; [exact Hs|lia]].
+    destruct (N.eqb_spec w u) as [->|Hne]; cbn [andb]; [|split; [exact Hs|lia]].
+    destruct (umem u (us_inflight s)) eqn:Em; cbn [negb]; [split; [exact Hs|lia]|].
     destruct (Hv u x Ef) as [Hid Hle]. destruct (Hw u eq_refl) as (x' & Ef' & Hal'). rewrite Ef in Ef'. injection Ef' as <-.
     destruct (Ha u x Ef Hal') as [_ Hview].
-    split; [|cbn [us_meta]; lia]. split; cbn [us_meta us_updaters us_writer uset].
+    split; [|cbn [us_meta]; lia]. split; cbn [us_meta us_updaters us_writer us_inflight uset].
     + intros v y. rewrite ufind_cons. cbn [u_id]. destruct (N.eqb_spec u v).
       * intros E. injection E as <-. cbn [u_id u_view]. split; [assumption|lia].
       * intros E. destruct (Hv v y E). split; [assumption|lia].
@@ -44,19 +55,24 @@ Proof.
       * intros E Hal. destruct (Ha v y E Hal) as [A _]. congruence.
     + intros w E. injection E as <-. exists {| u_id := u; u_alive := u_alive x; u_view := u_view x + 1 |}.
       rewrite ufind_cons. cbn [u_id]. rewrite N.eqb_refl. split; [reflexivity|exact Hal'].
+    + intros v Hm. destruct (Hi v Hm) as (y & Ey & Hal). destruct (Ha v y Ey Hal) as [A _].
+      assert (v = u) by congruence. subst v. congruence.
   - (* USave *)
     destruct (ufind u (us_updaters s)) as [x|] eqn:Ef; [|split; [exact Hs|lia]].
-    destruct (u_alive x) eqn:Eal; cbn [negb andb]; [|split; [exact Hs|lia]].
+    destruct (u_alive x) eqn:Eal; cbn [negb andb orb]; [|split; [exact Hs|lia]].
+    destruct (umem u (us_inflight s)); [split; [exact Hs|lia]|].
     destruct (Ha u x Ef Eal) as [A B]. rewrite B.
-    replace {| us_meta := us_meta s; us_updaters := us_updaters s; us_writer := us_writer s |} with s by (destruct s; reflexivity).
+    replace {| us_meta := us_meta s; us_updaters := us_updaters s; us_writer := us_writer s; us_inflight := us_inflight s |} with s by (destruct s; reflexivity).
     split; [exact Hs|lia].
   - (* UGone *)
     destruct (us_writer s) as [w|] eqn:Ew; [|split; [exact Hs|lia]].
     destruct (ufind u (us_updaters s)) as [x|] eqn:Ef; [|split; [exact Hs|lia]].
     destruct (N.eqb_spec w u) as [->|Hne]; [|split; [exact Hs|lia]].
-    destruct (Hv u x Ef) as [Hid Hle].
-    assert (Hk : (if r then true else true) = true) by (destruct r; reflexivity). rewrite Hk.
-    split; [|cbn [us_meta]; lia]. split; cbn [us_meta us_updaters us_writer uset].
+    destruct (Hv u x Ef) as [Hid Hle]. destruct (Hw u eq_refl) as (x' & Ef' & Hal'). rewrite Ef in Ef'. injection Ef' as <-.
+    destruct (Ha u x Ef Hal') as [_ Hview].
+    assert (Hk : (if r then true else true) = true) by (destruct r; reflexivity). rewrite Hk. cbn [andb].
+    assert (Hmeta : (if umem u (us_inflight s) then u_view x else us_meta s) = us_meta s) by (destruct (umem u (us_inflight s)); [exact Hview|reflexivity]).
+    rewrite Hmeta. split; [|cbn [us_meta]; lia]. split; cbn [us_meta us_updaters us_writer us_inflight uset].
     + intros v y. rewrite ufind_cons. cbn [u_id]. destruct (N.eqb_spec u v).
       * intros E. injection E as <-. cbn [u_id u_view]. split; assumption.
       * apply Hv.
@@ -64,28 +80,48 @@ Proof.
       * intros E Hal. injection E as <-. cbn [u_alive] in Hal. discriminate.
       * intros E Hal. destruct (Ha v y E Hal) as [A _]. congruence.
     + intros w E. discriminate.
+    + intros v Hm. assert (Hm' : umem v (us_inflight s) = true /\ (umem u (us_inflight s) = true -> v <> u)).
+      { destruct (umem u (us_inflight s)) eqn:Emu; [destruct (umem_udrop _ _ _ Hm); split; auto|split; [exact Hm|discriminate]]. }
+      destruct Hm' as [Hm1 Hne]. destruct (Hi v Hm1) as (y & Ey & Hal). destruct (Ha v y Ey Hal) as [A _].
+      assert (v = u) by congruence. subst v.
+      destruct (umem u (us_inflight s)) eqn:Emu; [exfalso; apply Hne; reflexivity|congruence].
+  - (* UStall *)
+    destruct (ufind u (us_updaters s)) as [x|] eqn:Ef; [|split; [exact Hs|lia]].
+    destruct (u_alive x) eqn:Eal; cbn [negb andb orb]; [|split; [exact Hs|lia]].
+    destruct (umem u (us_inflight s)) eqn:Em; [split; [exact Hs|lia]|].
+    split; [|cbn [us_meta]; lia]. split; cbn [us_meta us_updaters us_writer us_inflight]; auto.
+    intros v Hm. unfold umem in Hm. cbn [existsb] in Hm. apply orb_true_iff in Hm. destruct Hm as [E|Hm].
+    + apply N.eqb_eq in E. subst v. exists x. split; assumption.
+    + apply Hi. exact Hm.
+  - (* UResume *)
+    destruct (ufind u (us_updaters s)) as [x|] eqn:Ef; [|split; [exact Hs|lia]].
+    destruct (umem u (us_inflight s)) eqn:Em; [|split; [exact Hs|lia]].
+    destruct (Hi u Em) as (x' & Ef' & Hal'). rewrite Ef in Ef'. injection Ef' as <-.
+    destruct (Ha u x Ef Hal') as [_ Hview]. rewrite Hview.
+    split; [|cbn [us_meta]; lia]. split; cbn [us_meta us_updaters us_writer us_inflight]; auto.
+    intros v Hm. destruct (umem_udrop _ _ _ Hm) as [Hm1 _]. apply Hi, Hm1.
 Qed.
 
-(* With Drop / rollback killing the updater and save_metas refusing to run on a killed updater: for every sequence of writer
-   creations, commits, drops, rollbacks and (arbitrarily late) saves by ANY updater, old or new, what meta.json holds never
-   moves back: a published commit is never overwritten by a stale view. *)
+(* With Drop / rollback killing the updater, save_metas refusing to run on a killed updater, and the save holding a lock that
+   kill() takes too: for every sequence of writer creations, commits, drops, rollbacks and saves by ANY updater, old or new,
+   atomic or stalled between the liveness check and the write, what meta.json holds never moves back. *)
 Theorem meta_never_moves_back_gen evs : forall s, UInv s ->
-  us_meta s <= us_meta (fold_left (ustep_gen true true true) evs s).
+  us_meta s <= us_meta (fold_left (ustep_gen true true true true) evs s).
 Proof.
   induction evs as [|e evs IH]; intros s Hs; [cbn; lia|]. cbn [fold_left].
   destruct (ustep_inv s e Hs) as [Hi Hle]. specialize (IH _ Hi). lia.
 Qed.
 
-Lemma u_flags_pinned : u_flags = (true, true, true).
+Lemma u_flags_pinned : u_flags = (true, true, true, true).
 Proof. reflexivity. Qed.
 
-Lemma ustep_eq s e : ustep s e = ustep_gen true true true s e.
+Lemma ustep_eq s e : ustep s e = ustep_gen true true true true s e.
 Proof. unfold ustep. rewrite u_flags_pinned. reflexivity. Qed.
 
-Lemma fold_ustep_eq evs : forall s, fold_left ustep evs s = fold_left (ustep_gen true true true) evs s.
+Lemma fold_ustep_eq evs : forall s, fold_left ustep evs s = fold_left (ustep_gen true true true true) evs s.
 Proof. induction evs as [|e evs IH]; intros s; [reflexivity|]. cbn [fold_left]. rewrite ustep_eq. apply IH. Qed.
 
-Lemma uinv_run evs : forall s, UInv s -> UInv (fold_left (ustep_gen true true true) evs s).
+Lemma uinv_run evs : forall s, UInv s -> UInv (fold_left (ustep_gen true true true true) evs s).
 Proof. induction evs as [|e evs IH]; intros s Hs; [exact Hs|]. cbn [fold_left]. apply IH, ustep_inv, Hs. Qed.
 
 Theorem meta_never_moves_back evs1 evs2 :
@@ -94,12 +130,17 @@ Proof.
   rewrite fold_left_app, !fold_ustep_eq. apply meta_never_moves_back_gen. apply uinv_run, uinv0.
 Qed.
 
-(* each of the three mechanisms is needed (witnesses): writer 1 commits twice and is dropped / rolled back while a merge is
-   still running, writer 2 commits, then writer 1's updater saves its view *)
+(* each mechanism is needed (witnesses): writer 1 commits and is dropped / rolled back while a merge is still running,
+   writer 2 commits, then writer 1's updater saves its view *)
 Lemma drop_without_kill_loses_a_commit :
-  us_meta (urun_gen false true true [UNew 1; UCommit 1; UGone 1 false; UNew 2; UCommit 2; USave 1]) = 1 /\
-  us_meta (urun_gen true true true [UNew 1; UCommit 1; UGone 1 false; UNew 2; UCommit 2; USave 1]) = 2.
+  us_meta (urun_gen false true true true [UNew 1; UCommit 1; UGone 1 false; UNew 2; UCommit 2; USave 1]) = 1 /\
+  us_meta (urun_gen true true true true [UNew 1; UCommit 1; UGone 1 false; UNew 2; UCommit 2; USave 1]) = 2.
 Proof. vm_compute. split; reflexivity. Qed.
 Lemma save_without_liveness_check_loses_a_commit :
-  us_meta (urun_gen true true false [UNew 1; UCommit 1; UGone 1 true; UNew 2; UCommit 2; USave 1]) = 1.
+  us_meta (urun_gen true true false true [UNew 1; UCommit 1; UGone 1 true; UNew 2; UCommit 2; USave 1]) = 1.
 Proof. vm_compute. reflexivity. Qed.
+(* F052: the check alone is check-then-act -- a save that stalls after it and resumes after the next writer committed *)
+Lemma unlocked_save_in_flight_loses_a_commit :
+  us_meta (urun_gen true true true false [UNew 1; UCommit 1; UStall 1; UGone 1 false; UNew 2; UCommit 2; UResume 1]) = 1 /\
+  us_meta (urun_gen true true true true [UNew 1; UCommit 1; UStall 1; UGone 1 false; UNew 2; UCommit 2; UResume 1]) = 2.
+Proof. vm_compute. split; reflexivity. Qed.
